@@ -99,18 +99,27 @@ func vRunCase6(t *testing.T, c vCase) (msg string) {
 			return "an element/scalar operand was modified"
 		}
 		// returned buffers are independent
-		e = vElementOf(g, big.NewInt(3))
-		for name, get := range map[string]func() []byte{"Element.Encode": e.Encode, "Element.EncodeUncompressed": e.EncodeUncompressed, "Element.XCoordinate": e.XCoordinate,
-			"Scalar.Encode": u.Encode, "Order": Order} {
-			a := get()
-			ref := append([]byte{}, a...)
-			for i := range a[:cap(a)] {
-				a[:cap(a)][i] ^= 0xff
+		for _, pt := range []vPt{g, vInf()} {
+			e = vElementOf(pt, big.NewInt(3))
+			id := NewElement()
+			gets := map[string]func() []byte{"Element.Encode": e.Encode, "Element.EncodeUncompressed": e.EncodeUncompressed, "Element.XCoordinate": e.XCoordinate,
+				"Scalar.Encode": u.Encode, "Order": Order}
+			if pt.inf {
+				gets["NewElement().EncodeUncompressed"] = id.EncodeUncompressed
+				gets["NewElement().Encode"] = id.Encode
 			}
-			if b := get(); !bytes.Equal(b, ref) {
-				return name + ": writing to a returned buffer changed a later result"
+			for name, get := range gets {
+				a := get()
+				ref := append([]byte{}, a...)
+				for i := range a[:cap(a)] {
+					a[:cap(a)][i] ^= 0xff
+				}
+				if b := get(); !bytes.Equal(b, ref) {
+					return name + ": writing to a returned buffer changed a later result (identity=" + itoa(b2i(pt.inf)) + ")"
+				}
 			}
 		}
+		e = vElementOf(g, big.NewInt(3))
 		cp := e.Copy()
 		cp.Double()
 		if got, _ := vPointOf(e); !vSame(got, g) {
